@@ -77,6 +77,8 @@ type Task struct {
 	sendBlocked     bool
 	prevSendBlocked bool
 	atRecv          bool
+	cancel          func()
+	cancelled       bool
 	started         bool
 	startSeq        int
 	lastSite        string
